@@ -67,7 +67,9 @@ OpSeq == << Op("builtin", "RX", <<A>>, <<0>>), Op("builtin", "RZ", <<LAdd(LScale
             Op("ctrl", "RY", <<LAdd(B, LScale(-1, Cc))>>, <<1, 0>>), Op("dag", "PHASE", <<Cc>>, <<1>>), Op("builtin", "XX", <<NumP(3)>>, <<0, 1>>),
             Op("custom", "V", <<LAdd(A, B), NumP(2)>>, <<0>>), Op("custom", "V", <<B, A>>, <<1>>), Op("custom", "V", <<Cc, LAdd(A, NumP(1))>>, <<0>>),
             Op("phase", "", <<A, NumP(1), LAdd(B, A), NumP(0)>>, <<0, 1>>), Op("builtin", "RX", <<LAdd(A, LScale(-1, A))>>, <<0>>),
-            Op("pow", "RX", <<NumP(1)>>, <<0>>), Op("exp", "RZ", <<NumP(3)>>, <<1>>), Op("builtin", "CPHASE", <<LScale(-1, B)>>, <<1, 0>>) >>
+            Op("pow", "RX", <<NumP(1)>>, <<0>>), Op("exp", "RZ", <<NumP(3)>>, <<1>>), Op("builtin", "CPHASE", <<LScale(-1, B)>>, <<1, 0>>),
+            \* the same wrapper and the SAME parameters as operation 4 around another gate; a plain gate with the parameters of operation 1
+            Op("ctrl", "RX", <<LAdd(B, LScale(-1, Cc))>>, <<0, 1>>), Op("builtin", "RY", <<A>>, <<1>>) >>
 Kth(ks) == <<ks[1] % 8, IF Len(ks) >= 2 THEN ks[2] % 8 ELSE 0, IF Len(ks) >= 3 THEN ks[3] % 8 ELSE 0>>
 \* the custom gate V(a, b): stored matrix RZ(a) * RX(b) in its FORMAL parameters a, b (the formals carry the names of circuit symbols 1 and 2)
 CustomDef(ka, kb) == MMul(gm[<<"RZ", ka % 8>>], gm[<<"RX", kb % 8>>])
